@@ -212,6 +212,7 @@ pub struct Tally {
     pub totality_sweeps: u64,
     pub max_alloc_ratio_permille: u64,
     pub public_route_checks: u64,
+    pub content_checks: u64,
 }
 
 /// Evaluate one input against what the statement demands of it.
@@ -265,12 +266,49 @@ pub fn evaluate(input: &Input, bytes: &[u8], rng: &mut Rng, tally: &mut Tally) -
             return prob("readback-differs".into(), format!("{}: written {} read {}", input.what, want, dbg));
         }
     }
+    // Whatever fault produced these bytes: if the independent reader can read them as a file
+    // within chrono's documented restrictions (and both headers agree on the version), an
+    // accepted zone must carry exactly what the bytes say - no mis-slicing.
+    if input.expect == Expect::Survive && input.mode == "tzif" {
+        if let Some(m) = reference_reading(bytes) {
+            tally.content_checks += 1;
+            let want = m.debug();
+            if dbg != want {
+                return prob("accepted-content-differs".into(), format!("{}: the bytes say {} but the reader built {}", input.what, want, dbg));
+            }
+        }
+    }
     let (trans, offs) = debug_numbers(&dbg);
     tally.totality_sweeps += 1;
     if let Some(p) = totality(&z, &trans, &offs, rng) {
         return prob(format!("lookup-panic:{}", panic_loc(&p)), format!("{}: {}", input.what, p));
     }
     None
+}
+
+/// The independent reader's view of `bytes`, if they form a file inside the restrictions chrono
+/// documents (abbreviations of 3-7 alphanumeric/+- characters) with consistent headers.
+fn reference_reading(bytes: &[u8]) -> Option<ZoneModel> {
+    let m = crate::model::read_tzif(bytes)?;
+    let v = *bytes.get(4)?;
+    if v != 0 {
+        // find the second header: it must carry the same version byte
+        let mut c = [0usize; 6];
+        for k in 0..6 {
+            c[k] = u32::from_be_bytes(bytes.get(20 + 4 * k..24 + 4 * k)?.try_into().ok()?) as usize;
+        }
+        let h2 = 44 + c[3] * 4 + c[3] + c[4] * 6 + c[5] + c[2] * 8 + c[1] + c[0];
+        if *bytes.get(h2 + 4)? != v {
+            return None;
+        }
+    }
+    for t in &m.types {
+        let n = t.abbr.as_bytes();
+        if !(n.is_empty() || ((3..=7).contains(&n.len()) && n.iter().all(|c| c.is_ascii_alphanumeric() || *c == b'+' || *c == b'-'))) {
+            return None;
+        }
+    }
+    Some(m)
 }
 
 // ---------------------------------------------------------------- fault injectors (TZif)
@@ -690,7 +728,10 @@ fn out_of_range_variants(rule: &Rule, extended: bool, rng: &mut Rng) -> Vec<(Str
 // ---------------------------------------------------------------- public route
 
 /// `Local` with `TZ=:/sim/f` under read chunking and EINTR must answer as the accessor does.
-fn public_route(bytes: &Arc<Vec<u8>>, z: &Zone, rng: &mut Rng, fired: &mut BTreeMap<String, u64>) -> Result<Option<String>, String> {
+fn public_route(bytes: &Arc<Vec<u8>>, z: Option<&Zone>, rng: &mut Rng, fired: &mut BTreeMap<String, u64>) -> Result<Option<String>, String> {
+    let utc = Zone::utc();
+    let rejected = z.is_none();
+    let z = z.unwrap_or(&utc);
     let mut fs = Fs::new();
     fs.insert("/sim/f".into(), Inode { bytes: bytes.clone(), mtime_ns: 1, zone: 0 });
     let st = State { clock_ns: 1_700_000_000_000_000_000, tz: Some(":/sim/f".into()), fs, sysname: None };
@@ -730,8 +771,14 @@ fn public_route(bytes: &Arc<Vec<u8>>, z: &Zone, rng: &mut Rng, fired: &mut BTree
         }
         if g != want {
             return Ok(Some(format!(
-                "{:?}(t={}) via TZ=:/sim/f (chunk {}, EINTR at {:?}) returned {:?}, the zone read from the same bytes answers {:?}",
-                api, t, faults.chunk, faults.eintr_at, g, want
+                "{:?}(t={}) via TZ=:/sim/f (chunk {}, EINTR at {:?}) returned {:?}, {} answers {:?}",
+                api,
+                t,
+                faults.chunk,
+                faults.eintr_at,
+                g,
+                if rejected { "the reader rejects these bytes, so the UTC fallback (no system zone)" } else { "the zone read from the same bytes" },
+                want
             )));
         }
     }
@@ -764,6 +811,7 @@ fn add_tally(a: &mut Tally, b: &Tally) {
     a.totality_sweeps += b.totality_sweeps;
     a.max_alloc_ratio_permille = a.max_alloc_ratio_permille.max(b.max_alloc_ratio_permille);
     a.public_route_checks += b.public_route_checks;
+    a.content_checks += b.content_checks;
 }
 
 struct Sink<'a> {
@@ -835,7 +883,7 @@ pub fn shard(part: Part, seed: u64, tier: &str, from: u64, to: u64, out: &str) -
                     if let Ok(Ok(z)) = guarded(|| Zone::from_tzif(&bytes)) {
                         let arc = Arc::new(bytes.clone());
                         sink.sh.tally.public_route_checks += 1;
-                        match public_route(&arc, &z, &mut rng, &mut sink.sh.fired) {
+                        match public_route(&arc, Some(&z), &mut rng, &mut sink.sh.fired) {
                             Ok(None) => {}
                             Ok(Some(d)) => sink.problem(Problem {
                                 class: "public-route-differs".into(),
@@ -891,7 +939,23 @@ pub fn shard(part: Part, seed: u64, tier: &str, from: u64, to: u64, out: &str) -
                         let mut h = 0xcbf2_9ce4_8422_2325u64;
                         fnv(&mut h, &fb);
                         distinct.insert(h);
-                        sink.eval(Input { mode: "tzif".into(), hex: String::new(), expect, expected_debug: None, what: format!("{}; fault: {}", what, desc) }, &fb, &mut rng);
+                        let fwhat = format!("{}; fault: {}", what, desc);
+                        sink.eval(Input { mode: "tzif".into(), hex: String::new(), expect, expected_debug: None, what: fwhat.clone() }, &fb, &mut rng);
+                        // a sample of the faulted files also goes behind Local: whatever the
+                        // reader makes of them, the public route must agree with it (or fall back
+                        // to UTC) and must not panic
+                        if rng.chance(1, 16) {
+                            let z = guarded(|| Zone::from_tzif(&fb)).ok().and_then(|r| r.ok());
+                            let arc = Arc::new(fb.clone());
+                            sink.sh.tally.public_route_checks += 1;
+                            *sink.sh.fired.entry("public_route_on_faulted_file".into()).or_insert(0) += 1;
+                            let input = Input { mode: "tzif".into(), hex: hex(&fb), expect: Expect::Survive, expected_debug: None, what: fwhat.clone() };
+                            match public_route(&arc, z.as_ref(), &mut rng, &mut sink.sh.fired) {
+                                Ok(None) => {}
+                                Ok(Some(d)) => sink.problem(Problem { class: "public-route-differs".into(), detail: d, input }),
+                                Err(e) => sink.problem(Problem { class: "public-route-hang".into(), detail: e, input }),
+                            }
+                        }
                     }
                 }
             }
